@@ -7,6 +7,7 @@ COQ_FILES = ["Common/Corr.v", "Model/Toposort.v", "Model/Trie.v", "Proofs/Toposo
 PROPS = "Props/C41.v"
 THEOREMS = ["C41_sort_terminates", "C41_sort_ok_spec", "C41_sort_dag_spec", "C41_sort_cyclic_panics_iff",
             "C41_sort_cyclic_yields_all_refuted",
+            "C41_sorter_state_reset_after_any_prefix", "C41_sorter_history_fresh", "C41_sorter_use_complete", "C41_sorter_use_cut",
             "C41_trie_prefixes_total", "C41_trie_prefixes_all_in_order", "C41_trie_get_longest_prefix"]
 AXIOMS_OK = []
 TRUSTED = ["hand-written Gallina models of toposort.Sorter.Sort/push (coq/Model/Toposort.v) and of trie.Trie.Insert/Prefixes/Get with "
@@ -15,7 +16,7 @@ TRUSTED = ["hand-written Gallina models of toposort.Sorter.Sort/push (coq/Model/
            "path of insert and grow[] are not modelled (grow is exercised by the check with tries of more than 255 nodes)",
            "the hasValue bitset is modelled as a list of booleans; the Go map of sort states as a total function with default unsorted",
            "correspondence harness harness/cmd/topotrie (nodes and keys are ints, Key = identity; trie values are ints)"]
-ASSUMPTIONS = ["the consumer of the Sort iterator takes every element (no early break); Sorter reuse after a completed or panicked Sort is not modelled",
+ASSUMPTIONS = ["a consumer either takes every element or breaks on its k-th element; re-entrant use of a Sorter (the iterating flag) is not modelled",
                "graphs are finite adjacency lists; nodes outside the list have no children",
                "trie keys are byte strings (every element below 256)"]
 
@@ -49,6 +50,31 @@ def has_reachable_cycle(adj, roots):
     import sys
     sys.setrecursionlimit(10000)
     return any(v not in color and dfs(v) for v in sorted(r))
+
+
+def judge_use(ctx, adj, roots, take, o, ctxinfo):
+    """Direct oracle for one iteration (complete or abandoned after take elements) of a sort."""
+    cyc = has_reachable_cycle(adj, roots)
+    rep = dict(ctxinfo, adj=adj, roots=roots, take=take, observed=o)
+    if "panic" in o:
+        if cyc and PANIC_RE.match(o["panic"]):
+            ctx.violation(KEY_CYCLE, "Sort panics (cycle detected) instead of yielding each reachable node once", rep)
+        else:
+            ctx.violation("toposort-panic", "Sort panicked" + ("" if cyc else " on an acyclic graph"), rep)
+        return
+    out = o["out"]
+    want = reach(adj, roots)
+    if len(set(out)) != len(out):
+        ctx.violation("toposort-duplicate", "a node is yielded more than once", rep)
+    elif o.get("stopped") and not (len(out) == take and set(out) <= want):
+        ctx.violation("toposort-not-reachable-set", "an abandoned iteration yielded a node that is not reachable from its roots", dict(rep, reachable=sorted(want)))
+    elif not o.get("stopped") and set(out) != want:
+        ctx.violation("toposort-not-reachable-set", "the yielded nodes are not exactly the reachable nodes", dict(rep, reachable=sorted(want)))
+    elif not cyc:
+        pos = {v: k for k, v in enumerate(out)}
+        bad = [(v, c) for v in out for c in (adj[v] if v < len(adj) else []) if not (c in pos and pos[c] < pos[v])]
+        if bad:
+            ctx.violation("toposort-order", "a node is yielded before one of its children", dict(rep, parent_child=bad[0]))
 
 
 def nat_list(xs):
@@ -122,6 +148,42 @@ def run(ctx):
         roots = [rng.range(0, n - 1) for _ in range(rng.range(1, 3))]
         tcases.append((adj, roots))
 
+    # ------------------------------------------------------------ histories of uses of one Sorter
+    hcases = []   # (adj, [ {roots, take, same} ])
+    U = lambda roots, take=0, same=False: {"roots": list(roots), "take": take, "same": same}
+    chain = [[1], [2], [3], []]
+    hcases += [
+        (chain, [U([0], 2), U([3])]), (chain, [U([0], 2), U([0], 0, True)]), (chain, [U([0], 1), U([0], 4), U([1]), U([0])]),
+        ([[], []], [U([0, 1], 1), U([0, 1], 0, True)]), ([[], [], [1]], [U([0, 2], 1), U([0, 2])]),
+        ([[1], [0], []], [U([0]), U([2]), U([0], 1), U([2])]), ([[1, 2], [3], [3], []], [U([0], 3), U([1]), U([0])]),
+        ([[1], [2], [0], []], [U([0], 1), U([3]), U([0])]), ([[0]], [U([0]), U([0], 1), U([0])]),
+    ]
+    for n in range(1, 4):
+        subs = subsets(n)
+        for adj in itertools.product(subs, repeat=n):
+            adj = [list(a) for a in adj]
+            for a in range(n):
+                for k in (1, 2):
+                    for b in range(n):
+                        hcases.append((adj, [U([a], k), U([b])]))
+            for a in range(n):
+                for b in range(n):
+                    if a != b:
+                        hcases.append((adj, [U([a, b], 1), U([a, b], 0, True)]))
+    n_exh_h = len(hcases)
+    for _ in range(ctx.budget(1200, 60000)):
+        n = rng.range(2, rng.choice([4, 6, 9]))
+        acyclic = rng.chance(3, 4)
+        adj = []
+        for v in range(n):
+            adj.append([rng.range(v + 1, n) if acyclic else rng.range(0, n - 1) for _ in range(rng.range(0, 3))])
+        uses = []
+        for _ in range(rng.range(2, 4)):
+            same = bool(uses) and rng.chance(1, 4)
+            roots = uses[-1]["roots"] if same else [rng.range(0, n - 1) for _ in range(rng.range(1, 2))]
+            uses.append(U(roots, rng.choice([0, 0, 1, 1, 2, 3]), same))
+        hcases.append((adj, uses))
+
     # ------------------------------------------------------------ trie cases
     A = [0x61, 0x62, 0x71, 0xff]
     kcases = []   # (keys, queries) as lists of bytes objects
@@ -174,15 +236,19 @@ def run(ctx):
         kcases.append((keys, qs))
     ctx.rule = ("toposort: every digraph on <= %d nodes (children in increasing order) x every root list of length <= 2 (<= 1 for 4 nodes), every "
                 "3-node digraph with children in any order from root 0, the repository's test graphs, and random graphs of up to 12 nodes "
-                "(acyclic, acyclic + one back edge, arbitrary; duplicate children, children outside the list); trie: every sequence of <= 2 "
+                "(acyclic, acyclic + one back edge, arbitrary; duplicate children, children outside the list); histories of uses of ONE Sorter "
+                "(every digraph on <= 3 nodes x [iterate from root a and break on element 1 or 2, then sort root b] and x [roots a,b: break on element 1, "
+                "iterate the same iter.Seq again], plus random histories of 2-4 complete / abandoned / panicking iterations): every iteration must "
+                "equal the model's fresh sort cut at the break; trie: every sequence of <= 2 "
                 "insertions of keys of length <= 2 over {a,b,q,0xff} with all queries of length <= 2 and all extensions of the keys to length 3 (thorough: all queries of length <= 3), sampled sequences of 3 keys over {a,b,q}, "
                 "random key sets with queries derived from the keys, and key sets with more than 255 nodes; distinct = distinct input; "
                 "non-trivial = graph with at least one edge / at least one key" % nmax)
 
     ins = [{"mode": "topo", "adj": adj, "roots": roots} for adj, roots in tcases] + \
+          [{"mode": "topohist", "adj": adj, "uses": uses} for adj, uses in hcases] + \
           [{"mode": "trie", "keys": [k.hex() for k in keys], "queries": [q.hex() for q in qs]} for keys, qs in kcases]
     outs = ctx.impl("topotrie", ins)
-    tterms, tmeta, kterms, kmeta = [], [], [], []
+    tterms, tmeta, kterms, kmeta, hterms, hmeta = [], [], [], [], [], []
     for i, o in zip(ins, outs):
         if "crash" in o:
             ctx.corr_break("topotrie", i, o)
@@ -224,6 +290,25 @@ def run(ctx):
                 if bad:
                     ctx.violation("toposort-order", "a node is yielded before one of its children",
                                   {"adj": adj, "roots": roots, "out": out, "parent_child": bad[0]})
+        elif i["mode"] == "topohist":
+            adj = i["adj"]
+            ctx.count(("h", repr(adj), repr(i["uses"])), any(adj), "topo-history")
+            if "panic" in o:
+                ctx.corr_break("toposort-history", i, o)
+                ctx.violation("toposort-panic", "the harness itself panicked outside an iteration", {"input": i, "observed": o})
+                continue
+            uterms = []
+            for n_use, (u, uo) in enumerate(zip(i["uses"], o["uses"])):
+                if "panic" in uo:
+                    m = PANIC_RE.match(uo["panic"])
+                    obs = "(2, %s, %s, %d)" % (nat_list(uo["out"]), nat_list([int(x) for x in m.group(1).split("->")]), int(m.group(2))) if m \
+                        else "(3, %s, [], 0)" % nat_list(uo["out"])
+                else:
+                    obs = "(%d, %s, [], 0)" % (1 if uo["stopped"] else 0, nat_list(uo["out"]))
+                uterms.append("(%s, %d, %s)" % (nat_list(u["roots"]), u["take"], obs))
+                judge_use(ctx, adj, u["roots"], u["take"], uo, {"history": i["uses"], "use_index": n_use})
+            hterms.append("CTHist %s [%s]" % (graph_term(adj), "; ".join(uterms)))
+            hmeta.append((i, o))
         else:
             keys = [bytes.fromhex(k) for k in i["keys"]]
             qs = [bytes.fromhex(q) for q in i["queries"]]
@@ -253,7 +338,8 @@ def run(ctx):
             kmeta.append((i, o))
     ctx.sample(ins[5])
     ctx.sample(ins[n_exh_t + 3])
-    ctx.sample({"mode": "trie", "keys": ins[len(tcases) + n_exh_k + 1]["keys"], "queries": ins[len(tcases) + n_exh_k + 1]["queries"][:4]})
+    ctx.sample(ins[len(tcases) + 1])
+    ctx.sample({"mode": "trie", "keys": ins[len(tcases) + len(hcases) + n_exh_k + 1]["keys"], "queries": ins[len(tcases) + len(hcases) + n_exh_k + 1]["queries"][:4]})
     header = ("From Coq Require Import List Arith NArith Bool.\nImport ListNotations.\n"
               "From PV Require Import Common.Corr Model.Toposort Model.Trie.\n")
     mism, err = coq_eval_mismatches("cases_C41t", header, tterms, "topo_chk", shard_size=ctx.budget(800, 2000))
@@ -262,6 +348,12 @@ def run(ctx):
     for k in mism:
         i, o = tmeta[k]
         ctx.corr_break("toposort", i, {"observed": o})
+    mism, err = coq_eval_mismatches("cases_C41h", header, hterms, "hist_chk", shard_size=ctx.budget(1000, 2500))
+    if err:
+        raise RuntimeError(err)
+    for k in mism:
+        i, o = hmeta[k]
+        ctx.corr_break("toposort-history", i, {"observed": o})
     mism, err = coq_eval_mismatches("cases_C41k", header, kterms, "trie_chk", shard_size=ctx.budget(150, 400))
     if err:
         raise RuntimeError(err)
